@@ -9,6 +9,7 @@
 #include <ompl/geometric/planners/rrt/RRT.h>
 #include <ompl/geometric/planners/rrt/RRTConnect.h>
 #include <ompl/geometric/planners/rrt/LazyRRT.h>
+#include <ompl/geometric/planners/rlrt/RLRT.h>
 #undef protected
 #include <ompl/base/goals/GoalStates.h>
 #include <ompl/base/spaces/RealVectorStateSpace.h>
@@ -110,8 +111,8 @@ int main()
             std::printf("\n"); std::fflush(stdout);
             continue;
         }
-        const bool multi = cmd == "RRTN"; const bool lazy = cmd == "LRRT";
-        if (cmd != "RRT" && !multi && !lazy) continue;
+        const bool multi = cmd == "RRTN"; const bool lazy = cmd == "LRRT"; const bool rl = cmd == "RLRT";
+        if (cmd != "RRT" && !multi && !lazy && !rl) continue;
         in >> maxd >> bias >> thr; if (!multi) in >> iters >> tseed;
         std::vector<Wall> walls; std::vector<std::pair<double, double>> starts; double gx = 0, gy = 0;
         auto samples = std::make_shared<std::deque<std::pair<double, double>>>();
@@ -154,6 +155,31 @@ int main()
             {
                 auto path = std::dynamic_pointer_cast<og::PathGeometric>(pdef->getSolutionPath());
                 std::printf(" | 1 %d |", pdef->hasApproximateSolution() ? 1 : 0);
+                for (std::size_t i = 0; i < path->getStateCount(); ++i) { const double *v = path->getState(i)->as<ob::RealVectorStateSpace::StateType>()->values; std::printf(" %016llx %016llx;", bits(v[0]), bits(v[1])); }
+            }
+            else std::printf(" | 0 |");
+            std::printf("\n"); std::fflush(stdout);
+            continue;
+        }
+        if (rl)
+        {   // RLRT: same line format as RRT; per iteration the tape gives the variate that picks the node, then the goal-bias variate
+            auto rp = std::make_shared<og::RLRT>(si);
+            rp->setRange(maxd); rp->setGoalBias(bias); rp->setKeepLast(false);
+            rp->setProblemDefinition(pdef); rp->setup();
+            samples->clear(); for (auto &p : calls[0].pts) samples->push_back(p);
+            std::vector<double> tape; for (unsigned long q = 0; q < 2 * (unsigned long)calls[0].iters + 8; ++q) tape.push_back((double)((calls[0].tseed + 7 * q + 3 * q * q) % 64) / 64.0);
+            ob::IterationTerminationCondition itc(calls[0].iters);
+            ompl::RNG::verifSetTape(tape.data(), tape.size());
+            rp->solve(ob::PlannerTerminationCondition(itc));
+            ompl::RNG::verifSetTape(nullptr, 0);
+            auto &ms = rp->motions_;
+            std::map<const og::RLRT::Motion *, long> idx; for (std::size_t i = 0; i < ms.size(); ++i) idx[ms[i]] = (long)i;
+            std::printf("rlrt %zu;", ms.size());
+            for (auto *m : ms) { const double *v = m->state->as<ob::RealVectorStateSpace::StateType>()->values; std::printf(" %016llx %016llx %ld;", bits(v[0]), bits(v[1]), m->parent ? idx[m->parent] : -1L); }
+            if (pdef->hasSolution())
+            {
+                auto path = std::dynamic_pointer_cast<og::PathGeometric>(pdef->getSolutionPath());
+                std::printf(" | 1 %d %016llx |", pdef->hasApproximateSolution() ? 1 : 0, bits(pdef->getSolutionDifference()));
                 for (std::size_t i = 0; i < path->getStateCount(); ++i) { const double *v = path->getState(i)->as<ob::RealVectorStateSpace::StateType>()->values; std::printf(" %016llx %016llx;", bits(v[0]), bits(v[1])); }
             }
             else std::printf(" | 0 |");
